@@ -158,12 +158,12 @@ fn run(req: &json::JsonValue) -> json::JsonValue {
 }
 
 // run in a forked child so that a crash of generated code is an observation
-fn isolated(req: &json::JsonValue, f: fn(&json::JsonValue) -> json::JsonValue) -> json::JsonValue {
+pub(crate) fn isolated(req: &json::JsonValue, f: fn(&json::JsonValue) -> json::JsonValue) -> json::JsonValue {
     unsafe {
         let mut fds = [0i32; 2]; libc::pipe(fds.as_mut_ptr());
         let pid = libc::fork();
         if pid == 0 {
-            libc::close(fds[0]); libc::alarm(req["timeout_s"].as_u32().unwrap_or(20));
+            libc::close(fds[0]); libc::alarm(req["timeout_s"].as_u32().unwrap_or(60));
             let s = f(req).dump();
             libc::write(fds[1], s.as_ptr() as *const _, s.len()); libc::close(fds[1]); libc::_exit(0);
         }
